@@ -71,6 +71,8 @@ theorem popIters_midIters (nd : Node) (its : List (List SrcNode)) : popIters nd 
   | forEach => cases h2 : nd.kids.isEmpty <;> simp [popIters, midIters, h, h2]
   | apply => simp [popIters, midIters, h]
   | text => simp [popIters, midIters, h]
+  | attr nm => simp [popIters, midIters, h]
+  | emit => simp [popIters, midIters, h]
   | lre nm => simp [popIters, midIters, h]
   | block => simp [popIters, midIters, h]
   | call t => simp [popIters, midIters, h]
@@ -207,6 +209,16 @@ theorem sim (P : Prog) (O : Oracle) : ∀ (f : Nat),
       simp only [inst, hl] at hrec
       cases hkind : nd.kind with
       | text =>
+        simp only [hkind, Option.some.injEq] at hrec
+        subst hrec
+        refine ⟨1, ?_⟩
+        simp [iter, step_starting hl, startNext, hkind, pushIf, midIters]
+      | attr nm =>
+        simp only [hkind, Option.some.injEq] at hrec
+        subst hrec
+        refine ⟨1, ?_⟩
+        simp [iter, step_starting hl, startNext, hkind, pushIf, midIters]
+      | emit =>
         simp only [hkind, Option.some.injEq] at hrec
         subst hrec
         refine ⟨1, ?_⟩
@@ -398,10 +410,9 @@ theorem sim (P : Prog) (O : Oracle) : ∀ (f : Nat),
 /-! ## the calls of the fragment are start tags, end tags and non-empty text -/
 
 def PlainEv : REv → Prop
-  | .start _ => True
-  | .stop _ => True
+  | .attrU _ _ => False
   | .text s => s ≠ ""
-  | _ => False
+  | _ => True
 
 def Plain (l : List REv) : Prop := ∀ e ∈ l, PlainEv e
 
@@ -419,13 +430,23 @@ theorem plain_cons {e : REv} {l : List REv} (he : PlainEv e) (hl : Plain l) : Pl
   · subst h; exact he
   · exact hl x h
 
-theorem plain_startOut (O : Oracle) (k : Kind) (a : Addr) (n : SrcNode) : Plain (startOut O k a n) := by
-  cases k <;> simp only [startOut] <;> try exact plain_nil
-  · split
+theorem plain_startOut (O : Oracle) (hO : ∀ a n, Plain (O.evs a n)) (k : Kind) (a : Addr) (n : SrcNode) :
+    Plain (startOut O k a n) := by
+  cases k with
+  | text =>
+    simp only [startOut]
+    split
     · exact plain_nil
     · rename_i h
       exact plain_cons (by simpa [PlainEv, String.isEmpty_iff] using h) plain_nil
-  · exact plain_cons (by simp [PlainEv]) plain_nil
+  | attr nm => exact plain_cons (by simp [PlainEv]) plain_nil
+  | emit => exact hO a n
+  | lre nm => exact plain_cons (by simp [PlainEv]) plain_nil
+  | block => exact plain_nil
+  | call t => exact plain_nil
+  | choose => exact plain_nil
+  | forEach => exact plain_nil
+  | apply => exact plain_nil
 
 theorem plain_endOut (k : Kind) : Plain (endOut k) := by
   cases k <;> simp only [endOut] <;> try exact plain_nil
@@ -441,7 +462,7 @@ theorem plain_guarded : ∀ (l : List REv), Plain l → Pending.Guarded l ∧ Pe
     have hes := ih (fun x hx => h x (List.mem_cons_of_mem _ hx))
     cases e <;> simp_all [PlainEv, Pending.Guarded, Pending.NoEmptyText]
 
-theorem plain_inst (P : Prog) (O : Oracle) : ∀ (f : Nat),
+theorem plain_inst (P : Prog) (O : Oracle) (hO : ∀ a n, Plain (O.evs a n)) : ∀ (f : Nat),
     (∀ a n tr, inst P O f a n = some tr → Plain tr) ∧
     (∀ a i m n tr, instKids P O f a i m n = some tr → Plain tr) ∧
     (∀ a m ns tr, instNodes P O f a m ns = some tr → Plain tr) ∧
@@ -464,7 +485,9 @@ theorem plain_inst (P : Prog) (O : Oracle) : ∀ (f : Nat),
       | some nd =>
         simp only [hl] at h
         cases hk : nd.kind with
-        | text => simp only [hk, Option.some.injEq] at h; subst h; exact plain_startOut O .text a n
+        | text => simp only [hk, Option.some.injEq] at h; subst h; exact plain_startOut O hO .text a n
+        | attr nm => simp only [hk, Option.some.injEq] at h; subst h; exact plain_startOut O hO (.attr nm) a n
+        | emit => simp only [hk, Option.some.injEq] at h; subst h; exact plain_startOut O hO .emit a n
         | lre name =>
           simp only [hk, Option.map_eq_some_iff] at h
           obtain ⟨ks, hks, rfl⟩ := h
@@ -557,14 +580,14 @@ theorem run_calls (P : Prog) (O : Oracle) (fuel t0 : Nat) (root : SrcNode) (tr :
     rw [iter_add, hk]
     simp [iter, step, htl, popIf_pushIf, popIters_midIters, getInvoker]
 
-theorem plain_instRun (P : Prog) (O : Oracle) (fuel t0 : Nat) (root : SrcNode) (tr : List REv)
-    (h : instRun P O fuel t0 root = some tr) : Plain tr := by
+theorem plain_instRun (P : Prog) (O : Oracle) (hO : ∀ a n, Plain (O.evs a n)) (fuel t0 : Nat) (root : SrcNode)
+    (tr : List REv) (h : instRun P O fuel t0 root = some tr) : Plain tr := by
   simp only [instRun] at h
   cases htl : lookup P (t0, []) with
   | none => simp [htl] at h
   | some tn =>
     simp only [htl, Option.map_eq_some_iff] at h
     obtain ⟨b, hb, rfl⟩ := h
-    exact plain_append ((plain_inst P O fuel).1 _ _ _ hb) (plain_endOut _)
+    exact plain_append ((plain_inst P O hO fuel).1 _ _ _ hb) (plain_endOut _)
 
 end XalanModel.C01.Core
